@@ -271,11 +271,12 @@ def _ite(c, a, b):
 
 # ------------------------------------------------------------------ the scalar
 class Sym:
-    __slots__ = ("re", "im", "sq_of", "root", "tag")
+    __slots__ = ("re", "im", "sq_of", "root", "tag", "isint")
 
     def __init__(self, re, im=0):
         self.re = tov(re)
         self.im = tov(im)
+        self.isint = False  # set on variables that stand for a Python int (isinstance(x, int) is True, int(x) is x)
         self.sq_of = None   # if set: this value is sqrt(sq_of) (sq_of a value)
         self.root = None    # if set: sqrt(self) is this value
         self.tag = None
@@ -976,6 +977,14 @@ def define(var, axioms, deps=()):
 # ------------------------------------------------------------------ variables / arrays
 def var(name):
     return Sym(z3.Real(name))
+
+
+def int_var(name):
+    """a variable that stands for a Python int: integrality is the caller's precondition (ToInt(v) == v);
+    isinstance(v, int) holds and int(v) returns v itself instead of enumerating values"""
+    v = Sym(z3.Real(name))
+    v.isint = True
+    return v
 
 
 def cvar(name):
